@@ -167,6 +167,12 @@ func (e *Engine) propagateEqs(assumps []*Term, goal *Term) ([]*Term, *Term, map[
 		}
 		var out []*Term
 		for _, a := range assumps {
+			if a.Op == ONot && a.Args[0].Op == OEq && a.Args[0].Args[0].S.K == SBV && a.Args[0].Args[0].S.W == RgnW {
+				// a region disequality is kept for the solver as it stands: rebuilding it would
+				// simplify it away by the very knowledge it provides
+				out = append(out, a)
+				continue
+			}
 			use := sub
 			if keys, ok := def[a]; ok {
 				// a defining assumption is rewritten by all rules but its own
